@@ -432,3 +432,42 @@ func VerifC17TwoTwo() {
 	}
 	rt.Assert(e.mirrors(), "C17: a monitor that applies its notifications in the order received ends with the database contents")
 }
+
+// VerifC17MonitorDuring: while one client's transaction runs, another connection registers a monitor (the monitor
+// handlers read the database without the transaction lock): the transaction's outcome must be the one it has alone,
+// and the monitor's initial contents must be a committed state.
+func VerifC17MonitorDuring() {
+	e := newC17Env()
+	e.seed(5)
+	res, err := e.transact(0, c17Op(1, 20)...)
+	rt.Assert(!c17Failed(res, err), "C17: the first contended insert is accepted")
+	kind := []int{0, 1, 2, 4}[rt.Choose(4)]
+	var ok bool
+	done := 0
+	var initial ovsdb.TableUpdates2
+	go func() {
+		res, err := e.transact(1, c17Op(kind, 30)...)
+		ok = !c17Failed(res, err)
+		done++
+	}()
+	go func() {
+		req := map[string]*ovsdb.MonitorRequest{"Root": {}}
+		merr := e.srv.MonitorCond(e.mon, []json.RawMessage{c17Raw("V"), c17Raw("late"), c17Raw(req)}, &initial)
+		rt.Assert(merr == nil, "C17: the monitor is accepted")
+		done++
+	}()
+	for tries := 0; done < 2 && tries < 200; tries++ {
+		rt.RunPending()
+	}
+	rt.Reach("ran")
+	rt.Assert(done == 2, "C17: both calls return")
+	if done != 2 {
+		return
+	}
+	start := c17State{has: true, num: 5, contended: []int{20}}
+	want, wantOK := start.apply(kind, 30)
+	got, wellFormed := e.dbState()
+	rt.Assert(wellFormed && ok == wantOK && c17Same(got, want), "C17: a transaction has the outcome it has alone when a monitor is registered while it runs")
+	n := len(initial["Root"])
+	rt.Assert(n == 2, "C17: the initial contents of a monitor registered during a transaction are a committed state")
+}
